@@ -133,6 +133,8 @@ def build_thread(interp, tid, calls, mem):
         for o in outs:
             if o[0] == "vis":
                 _, s2, desc, dest, _ = o
+                if dest is not None and dest[0] == "local":
+                    s2.frames[-1].loc.pop(dest[1], None)          # about to be overwritten by the operation's result
                 key = (callidx, state_key(s2), sx(desc), sx(dest), tuple(sx(r) for r in results))
                 if key in memo:
                     branches.append((s2.pc, memo[key])); continue
